@@ -12,8 +12,9 @@
    "returns the solution, LinAlgError iff the matrix is singular" (singular <-> D = 0).
 
    calculate_design_conditions is modelled AS REPAIRED (fixes/C17-*.patch): no `assert len(x) <= 2`,
-   and the vertical probe segment is extended by a tenth of the ordinate EXTENT (the source used a
-   tenth of max(y), which shortens the probe when the ordinates are negative). *)
+   and the vertical probe segment is extended by a tenth of max(|min y|, |max y|) (the source used a
+   tenth of max(y), which SHORTENS the probe when the ordinates are negative; for contours with
+   non-negative ordinates the two expressions are the same floating-point value). *)
 From Coq Require Import List Bool ZArith.
 Import ListNotations.
 
@@ -111,7 +112,9 @@ Section Gen.
     end.
 
   (* the vertical probe segment at abscissa x (repaired extent) *)
-  Definition probe_pad (cl : list pt) : F := (one / ofz 10) * (lmax (map snd cl) - lmin (map snd cl)).
+  Definition fabs (a : F) : F := if leb zero a then a else zero - a.
+  Definition probe_pad (cl : list pt) : F :=
+    (one / ofz 10) * fmax (fabs (lmin (map snd cl))) (fabs (lmax (map snd cl))).
   Definition probe_lo (cl : list pt) : F := lmin (map snd cl) - probe_pad cl.
   Definition probe_hi (cl : list pt) : F := lmax (map snd cl) + probe_pad cl.
   Definition probe (cl : list pt) (x : F) : list pt := [(x, probe_lo cl); (x, probe_hi cl)].
@@ -135,7 +138,14 @@ Arguments segments {F}. Arguments proj {F}.
 (* ------------------------------------------------------------------ exact rational instance *)
 From Coq Require Import QArith.
 
-Definition Qintersection := intersection Q Qplus Qminus Qmult Qdiv Qle_bool inject_Z.
-Definition Qdesign_conditions := design_conditions Q Qplus Qminus Qmult Qdiv Qle_bool inject_Z.
-Definition Qsteps_of := steps_of Q Qplus Qminus Qmult Qdiv Qle_bool inject_Z.
+(* exact rational arithmetic, results kept in lowest terms (Coq's Z is not a machine bignum: the
+   cost of vm_compute is quadratic in the bit length, so the fractions must not be left to grow) *)
+Definition Qadd_r (a b : Q) : Q := Qred (Qplus a b).
+Definition Qsub_r (a b : Q) : Q := Qred (Qminus a b).
+Definition Qmul_r (a b : Q) : Q := Qred (Qmult a b).
+Definition Qdiv_r (a b : Q) : Q := Qred (Qdiv a b).
+
+Definition Qintersection := intersection Q Qadd_r Qsub_r Qmul_r Qdiv_r Qle_bool inject_Z.
+Definition Qdesign_conditions := design_conditions Q Qadd_r Qsub_r Qmul_r Qdiv_r Qle_bool inject_Z.
+Definition Qsteps_of := steps_of Q Qadd_r Qsub_r Qmul_r Qdiv_r Qle_bool inject_Z.
 Definition Qclosed_of := closed_of Q.
